@@ -114,7 +114,11 @@ pub fn run(c: &mut Ctx) {
             let mut d = lo + off;
             while d < hi {
                 let shift = rng.u32();
-                match check_pair(a, d as u32, shift) {
+                let res = match crate::ctx::catch(|| check_pair(a, d as u32, shift)) {
+                    Ok(r) => r,
+                    Err(pi) => Err((format!("panic:{}", pi.site()), format!("panic for base {} difference {}: {}", a, d, pi.msg))),
+                };
+                match res {
                     Ok(o) => {
                         let k = match o { Some(Ordering::Less) => 0, Some(Ordering::Equal) => 1, Some(Ordering::Greater) => 2, None => 3 };
                         outcome_counts[k] += 1;
@@ -148,7 +152,12 @@ pub fn run(c: &mut Ctx) {
                 2 => rng.below(5) as u32,
                 _ => 0u32.wrapping_sub(rng.below(5) as u32),
             };
-            if let Err((sig, what)) = check_pair(a, d, rng.u32()) {
+            let sh = rng.u32();
+            let res = match crate::ctx::catch(|| check_pair(a, d, sh)) {
+                Ok(r) => r,
+                Err(pi) => Err((format!("panic:{}", pi.site()), format!("panic for base {} difference {}: {}", a, d, pi.msg))),
+            };
+            if let Err((sig, what)) = res {
                 nviol += 1;
                 let rp = c.replay_of("pairs", idx, json!({"a": a, "d": d}));
                 c.violation(&sig, &what, rp);
